@@ -49,6 +49,15 @@ type (
 	B []byte
 )
 
+// withLimit runs f with the type's MaxInputLength set (0 disables it) and restores it.
+func withLimit(typ string, limit int, f func()) {
+	p := limitOf(typ)
+	old := *p
+	*p = limit
+	defer func() { *p = old }()
+	f()
+}
+
 // receiver abstracts the five types: ptr is the pointer handed to the decoders, get returns a deep copy of the current value.
 type receiver struct {
 	ptr    any
@@ -257,6 +266,14 @@ func same(name string, c Case, w *vkit.W, outs [4]outcome) (anyErr bool) {
 func o(v any, err error) outcome { return outcome{v, err} }
 
 func judgeStateless(c Case, w *vkit.W) (anyErr bool) {
+	if c.NoLimit {
+		withLimit(c.Type, 0, func() {
+			c2 := c
+			c2.NoLimit = false
+			anyErr = judgeStateless(c2, w)
+		})
+		return anyErr
+	}
 	a, b := string(c.A), string(c.B)
 	ab, bb := []byte(a), []byte(b)
 	snapA, snapB := append([]byte{}, ab...), append([]byte{}, bb...)
@@ -512,6 +529,31 @@ func TestCheck(t *testing.T) {
 				}
 			})
 		}
+	})
+
+	// long inputs and inputs with many multi-byte characters, default limits and limits disabled (serial: a package global changes)
+	r.Phase("stateless: long and multi-byte-rich inputs (lengths around 64/128/256/1024 bytes; characters vs bytes), default and disabled limits", func() {
+		r.Serial(func(w *vkit.W) {
+			long := map[string][]string{
+				"roman": {strings.Repeat("M", 126) + "IV", strings.Repeat("M", 128) + "CMXCIX", strings.Repeat("M", 130) + "CMXCIX", strings.Repeat("M", 128) + "Z", strings.Repeat("m", 255) + "x", strings.Repeat("M", 1030)},
+				"sem":   {"1.0.0-" + strings.Repeat("a", 1017), "1.0.0-" + strings.Repeat("a", 1018), "1.0.0-" + strings.Repeat("a", 1019), "v1.0.0-" + strings.Repeat("a.", 600) + "b", "1.0.0-" + strings.Repeat("a", 1100) + "+x", "1.0.0-" + strings.Repeat("a", 1100) + " "},
+				"size":  {"1" + strings.Repeat("\u00a0", 70) + "KiB", "1" + strings.Repeat("\u00a0", 61) + "KiB", "1" + strings.Repeat("\u00a0", 62) + "KiB", "1" + strings.Repeat("\u00a0", 63) + "KiB", "1" + strings.Repeat(" ", 130) + "KiB", strings.Repeat(" ", 124) + "1 kB", strings.Repeat(" ", 125) + "1 kB", "1" + strings.Repeat("_", 127), "\"" + strings.Repeat("\u00a0", 62) + "\"", "{\"value\":1,\"unit\":\"B\",\"x\":\"" + strings.Repeat("é", 60) + "\"}"},
+				"date":  {"2022-08-07" + strings.Repeat(" ", 10), "123456789-01-01x", "2002-08-07T15:12:55Z", strings.Repeat("2", 20)},
+				"uu":    {"urn:uuid:123e4567-e89b-12d3-a456-426614174000 ", "123e4567-e89b-12d3-a456-426614174000" + strings.Repeat("0", 20), strings.Repeat("é", 18), strings.Repeat("é", 23)},
+			}
+			for _, typ := range types {
+				nRules := map[string]int{"date": 2, "roman": 2, "sem": 2, "size": 16, "uu": 4}[typ]
+				for _, noLimit := range []bool{false, true} {
+					for i, a := range long[typ] {
+						for rule := 0; rule < nRules; rule++ {
+							c := Case{Kind: "stateless", Type: typ, A: vkit.B(a), B: vkit.B(long[typ][(i+1)%len(long[typ])]), Rule: rule, NoLimit: noLimit}
+							nt := judge(c, w)
+							w.EvalRandom(vkit.Hash64(typ, a, strconv.Itoa(rule), fmt.Sprint(noLimit)), nt)
+						}
+					}
+				}
+			}
+		})
 	})
 
 	r.Phase("stateless: rapid", func() {
